@@ -147,19 +147,31 @@ def loop_tu(loop_id, g):
 
 def instrument(g, wd, gb):
     cur = gb
-    steps = []
+    log = []
+
+    def step(cmd):
+        rc, out, _ = sh(cmd, cwd=wd, timeout=600)
+        log.append("$ " + cmd + "\n" + out)
+        if rc != 0:
+            raise GroupError("instrumentation failed: %s\n%s" % (cmd, out[-3000:]))
+
     if g.get("nondet_static"):
-        steps.append("goto-instrument --nondet-static %s n.gb" % cur)
+        step("goto-instrument --nondet-static %s n.gb" % cur)
         cur = "n.gb"
     uw = dict(g.get("unwind", {}))
-    # specification-side loops (verification world set-up, spec functions) are constant-bounded: unwind fully
-    for lid in show_loops(cur, wd):
-        fn = lid.rsplit(".", 1)[0]
-        if (fn.startswith("vw_") or fn.startswith("spec_") or fn == "harness") and lid not in uw:
-            uw[lid] = g.get("spec_unwind", 40)
+    # loops of the code under proof that carry no loop contract are constant-bounded: unwind them unwind_all times with
+    # unwinding assertions (ids resolved on every run).  Specification-side loops (vw_*, spec_*, harness) have constant
+    # trip counts and are left to symex, which unwinds them exactly.
+    if g.get("unwind_all"):
+        contracted = set(g.get("loops", {}))
+        for lid in show_loops(cur, wd):
+            fn = lid.rsplit(".", 1)[0]
+            if fn.startswith("vw_") or fn.startswith("spec_") or fn == "harness" or lid in contracted or lid in uw:
+                continue
+            uw[lid] = g["unwind_all"]
     if uw:
         us = ",".join("%s:%d" % (k, v) for k, v in uw.items())
-        steps.append("goto-instrument --unwindset %s --unwinding-assertions %s u.gb" % (us, cur))
+        step("goto-instrument --unwindset %s --unwinding-assertions %s u.gb" % (us, cur))
         cur = "u.gb"
     if g.get("form", "dfcc") == "dfcc":
         cmd = "goto-instrument --dfcc harness"
@@ -171,7 +183,7 @@ def instrument(g, wd, gb):
             cmd += " --restrict-function-pointer " + r
         if g.get("loops"):
             cmd += " --apply-loop-contracts"
-        steps.append(cmd + " %s b.gb" % cur)
+        step(cmd + " %s b.gb" % cur)
         cur = "b.gb"
     else:
         cmd = "goto-instrument"
@@ -180,15 +192,9 @@ def instrument(g, wd, gb):
         if g.get("loops"):
             cmd += " --apply-loop-contracts"
         if cmd != "goto-instrument":
-            steps.append(cmd + " %s b.gb" % cur)
+            step(cmd + " %s b.gb" % cur)
             cur = "b.gb"
-    log = ""
-    for s in steps:
-        rc, out, _ = sh(s, cwd=wd, timeout=600)
-        log += "$ " + s + "\n" + out
-        if rc != 0:
-            raise GroupError("instrumentation failed: %s\n%s" % (s, out[-3000:]))
-    return cur, log
+    return cur, "\n".join(log)
 
 
 def cbmc_cmd(g, gb, trace=False):
